@@ -22,7 +22,9 @@ for a in sys.argv[2:]:
     if a.startswith("--map"):  # second campaign: --map=A:C,B:D files seedA/seedB of the worktree as <ID>_C / <ID>_D
         vmap = dict(kv.split(":") for kv in a.split("=", 1)[1].split(","))
 xs = rest or ["A", "B"]
-wt = f"/tmp/seed/wt_{pid}"
+wtroot = next((a.split("=", 1)[1] for a in sys.argv[2:] if a.startswith("--wtroot")), "/tmp/seed")
+nocheck = "--nocheck" in sys.argv  # file the change only; tools/sweep_seeds.py runs the checks later
+wt = f"{wtroot}/wt_{pid}"
 for x in xs:
     diff, demo = f"{wt}/seed{x}.diff", f"{wt}/demo{x}.py"
     if not (os.path.exists(diff) and os.path.exists(demo)):
@@ -39,12 +41,16 @@ for x in xs:
     shutil.copy(demo, f"{sd}/demo.py")
     if os.path.exists(f"{wt}/SEED_NOTES.md"):
         shutil.copy(f"{wt}/SEED_NOTES.md", f"{sd}/SEED_NOTES.md")
-    meta = {"property": pid, "variant": vmap.get(x, x), "notes_section": x, "campaign": 2 if vmap else 1, "confirmed_in_scratch_worktree": ok, "verify_output": v.stdout[-1500:],
+    meta = {"property": pid, "variant": vmap.get(x, x), "notes_section": x, "campaign": (3 if "seed3" in wtroot else 2) if vmap else 1, "confirmed_in_scratch_worktree": ok, "verify_output": v.stdout[-1500:],
             "verify_cmd": f"tools/verify_seed.sh {wt} seed{x}.diff demo{x}.py (clean: demo exit 0; seeded: 45 tests pass, demo exit 1)"}
     if not ok:
         json.dump(meta, open(f"{sd}/meta.json", "w"), indent=1)
         continue
     ids = [pid] + also
+    if nocheck:
+        meta.update({"exit_codes": {i: None for i in ids}, "files_touched": sorted(set(re.findall(r"^\+\+\+ b/(.*)$", open(diff).read(), re.M)))})
+        json.dump(meta, open(f"{sd}/meta.json", "w"), indent=1)
+        continue
     out = f"{sd}/check_output.txt"
     r = subprocess.run(["/verif/tools/run_seed_wt.sh", wt, diff, out] + ids, capture_output=True, text=True)
     txt = open(out).read() if os.path.exists(out) else r.stdout
